@@ -19,8 +19,12 @@ class LoopSpec:
     lemmas ...) about the current state, ASSUMED at the loop head and again before the invariant is
     re-established; they are listed in the trusted base."""
 
-    def __init__(self, inv, variant=None, lemmas=None):
+    def __init__(self, inv, variant=None, lemmas=None, step_lemma=None, step_body_src=None, havoc_names=()):
         self.inv, self.variant, self.lemmas = inv, variant, lemmas
+        self.havoc_names = tuple(havoc_names)      # objects the (abstract) body may modify besides what the syntax shows
+        # step_lemma: qualname of a lemma unit proving "one execution of the loop body preserves inv";
+        # step_body_src: the exact source text the body must have for that lemma to apply
+        self.step_lemma, self.step_body_src = step_lemma, step_body_src
 
 
 class Case:
@@ -32,7 +36,8 @@ class Contract:
     def __init__(self, file, qualname, cases=None, requires=None, ensures=None, modifies=(), pure=None,
                  make_ret=None, may_raise=None, must_raise=None, raise_allowed=None, loops=None, sites=None,
                  sites_strict=(), locals_=None, globals_=None, normalize=None, axioms=None, verify=True,
-                 min_obligations=1, sum_hook=None, note='', local_sorts=None, post_lemmas=None):
+                 min_obligations=1, sum_hook=None, note='', local_sorts=None, post_lemmas=None, body=None,
+                 depends=()):
         self.file, self.qualname = file, qualname
         self.cases = cases or []
         self.requires, self.ensures, self.modifies = requires, ensures, tuple(modifies)
@@ -45,6 +50,9 @@ class Contract:
         self.verify, self.min_obligations, self.sum_hook, self.note = verify, min_obligations, sum_hook, note
         self.local_sorts = local_sorts or {}
         self.post_lemmas = post_lemmas
+        # body: python callable (run, env) for LEMMA units (no source text of their own): a composition of
+        # callee contracts; depends: qualnames of the real functions whose contracts it composes
+        self.body, self.depends = body, tuple(depends)
 
 
 class Source:
@@ -119,7 +127,12 @@ class Unit:
 
     def __init__(self, contract, case, registry):
         self.c, self.case, self.registry = contract, case, registry
-        self.node, self.sha = Source.find(contract.file, contract.qualname)
+        if contract.body is not None:
+            self.node = None
+            hs = [Source.find(registry.get(q).file, q)[1] or '?' for q in contract.depends if registry.get(q) is not None]
+            self.sha = hashlib.sha256('|'.join(hs).encode()).hexdigest()[:16]
+        else:
+            self.node, self.sha = Source.find(contract.file, contract.qualname)
         self.loops, self.sites, self.sites_strict = contract.loops, contract.sites, contract.sites_strict
         self.locals_ = contract.locals_
         self.globals_ = dict(contract.globals_)
@@ -127,6 +140,8 @@ class Unit:
         self.local_sorts = getattr(contract, 'local_sorts', None) or {}
         self.name = '%s[%s]' % (contract.qualname, case.name)
         self._loop_ord = {}
+        if self.node is None:
+            return
         if self.node is not None:
             loops = [x for x in ast.walk(self.node) if isinstance(x, (ast.For, ast.While))]
             loops.sort(key=lambda x: (x.lineno, x.col_offset))
@@ -149,8 +164,11 @@ def run_path(unit, lib, prefix, skip):
     c, case = unit.c, unit.case
     run = Run(unit, unit.registry, lib, prefix, skip)
     env = {}
-    a = unit.node.args
-    names = [x.arg for x in a.posonlyargs + a.args + a.kwonlyargs]
+    if unit.node is None:
+        names = [nm for nm in case.params if not nm.startswith('_')]
+    else:
+        a = unit.node.args
+        names = [x.arg for x in a.posonlyargs + a.args + a.kwonlyargs]
     for nm in names:
         mk = case.params.get(nm)
         if mk is None:
@@ -182,7 +200,11 @@ def run_path(unit, lib, prefix, skip):
     outcome = None
     try:
         try:
-            run.exec_block(unit.node.body, env)
+            if c.body is not None:
+                run.cur_env = env
+                c.body(run, env)
+            else:
+                run.exec_block(unit.node.body, env)
             outcome = ('return', NONE)
         except ReturnEx as r:
             outcome = ('return', r.value)
@@ -195,7 +217,7 @@ def run_path(unit, lib, prefix, skip):
         if outcome is not None:
             res.reached_post = True
             new = View(env, {'old': old, 'run': run, 'ghost': run.ghost})
-            end_line = getattr(run, 'cur_line', unit.node.lineno)
+            end_line = getattr(run, 'cur_line', unit.node.lineno if unit.node is not None else 0)
             if c.post_lemmas is not None:
                 for lm in c.post_lemmas(new):
                     run.assume(lm)
@@ -344,7 +366,7 @@ def verify_unit(contract_qual, case_name, registry_factory, tier='quick', proof_
         case = [x for x in c.cases if x.name == case_name][0]
         unit = Unit(c, case, reg)
         out['file'], out['sha'] = c.file, unit.sha
-        if unit.node is None:
+        if unit.node is None and c.body is None:
             raise Unbindable('function %s not found in %s' % (contract_qual, c.file))
         lib = reg.make_lib()
         tt = time.time()
